@@ -612,6 +612,9 @@ func (u *Unit) opaqueLibraryCall(c *ast.CallExpr, fun ast.Expr, fn *types.Func, 
 func (u *Unit) atomBoolCall(c *ast.CallExpr, se *ast.SelectorExpr, fn *types.Func, env *Env) []Outcome {
 	// receiver is a field of a pointer struct: use (holder ref, field) as the cell
 	holder, field := u.fieldCell(se.X, env)
+	if fse, ok := unparen(se.X).(*ast.SelectorExpr); ok {
+		u.lockGuardCheck(env, fse, fn.Name() == "Set")
+	}
 	hn := "AB_" + field
 	h := u.heap(env, hn, ArrS(SRef, SBool))
 	switch fn.Name() {
@@ -666,6 +669,11 @@ func (u *Unit) lockOp(env *Env, lockExpr ast.Expr, mode string, acquire bool, at
 	okT := boolTerm(ok && cur == mode)
 	u.assert(env, "perm/unlock-matches/"+key, "perm", at.Pos(), "release of "+key+" matches its acquire mode", okT)
 	delete(env.held, key)
+	for k := range env.held {
+		if strings.HasPrefix(k, "decided:") && strings.HasSuffix(k, "@"+key) {
+			delete(env.held, k)
+		}
+	}
 }
 
 // a freshly obtained object with arbitrary field contents
